@@ -133,6 +133,22 @@ prop("C20", "exploration",
                      "ages matter",
                      "ages above 1 h are not combined with a file held for an unknown predecessor (the receiver's own 10 s log look-ups make that combination cost minutes)"])
 
+prop("C06", "fault_enumeration",
+     "W1r built with pause points inserted before every durable step of stage/, fileutil/ and log/ (go build -overlay): per case a script of 1-3 files "
+     "(optional predecessor chain, rename) whose parts arrive in a drawn order in requests of 1-3 parts with retransmissions and polls; a dry run counts "
+     "the durable steps (typically 20-90: mkdir, create, truncate, data write, companion temp write + rename, .part->.full, .full->.wait, log append + sync, "
+     "move to <final>.lck, rename into place, companion removal); then for 1-4 drawn indexes k the script is run again, the whole process image is frozen "
+     "at step k (all goroutines parked), copied, and a new Stage recovers on the copy - in a quarter of the runs crashed again at the j-th step of "
+     "recovery; oracle after recovery and after a resumption phase: each file is partial with an accurate record, or held validated, or delivered under "
+     "its proper name with a log record, exactly once; nothing reported passed/waiting before the crash is lost; non-trivial = crash index strictly inside "
+     "the step sequence; distinct = (script, crash indexes)",
+     [dict(pkg="stagex", test="TestC06Crash", world="W1r+pause", overlay=True, quick=480, thorough=16000, per_proc=60, shrink_runs=80,
+           required_classes=["crash:Move:os.Rename", "crash:putFileAway:Received", "crash:writeJSON:os.Rename", "crash:Receive:os.Rename",
+                             "crash:process:os.Rename", "crash-during-recovery"])],
+     STAGE_ASSUME + ["process-crash model: every completed system call is durable; no torn writes or reordering",
+                     "crash points are the statements the instrumenter recognises as durable steps (listed as crash:* classes in the evidence)",
+                     "a crash inside the transfer of one part's bytes is represented by the crash points before and after the data copy"])
+
 # ---------------------------------------------------------------------------
 # texts for MANIFEST.json (tools/mkmanifest.py)
 
@@ -203,5 +219,12 @@ MANIFEST_TEXT["C20"] = dict(
     text="Snapshot oracle: whatever leaves the staging area during a cleaning belongs to a delivered or logged (name, hash); nothing of an undelivered "
          "version is removed or truncated; pruned directories were empty and old; in-flight transfers then complete using only unacknowledged parts.",
     note=STAGE_NOTE)
+
+MANIFEST_TEXT["C06"] = dict(
+    technique="fault injection by enumerated crash points (build-time inserted pause points, process image frozen and copied) over rapid-generated transfer scripts; recovery/resumption oracle",
+    text="For generated scripts, drawn (thorough: many) indexes of the counted sequence of durable steps are used as crash points: the running instance "
+         "is frozen there, its directories copied, a fresh instance recovers (optionally crashing again), the sender's resumption is played and every "
+         "file must end in exactly one legal condition, delivered exactly once.",
+    note=STAGE_NOTE + " Pause points are inserted by harness/cmd/instrument at build time; with no hook armed the instrumented code is the original code.")
 
 NOT_CLAIMED = {}
